@@ -21,6 +21,7 @@ import (
 	"github.com/hydraide/hydraide/app/name"
 	"github.com/hydraide/hydraide/app/server/observer"
 	"github.com/hydraide/hydraide/app/server/telemetry"
+	"github.com/hydraide/hydraide/app/verifhook"
 	hydrapb "github.com/hydraide/hydraide/sdk/go/hydraidego/v3/hydraidepbgo"
 	"google.golang.org/grpc/codes"
 	"google.golang.org/grpc/status"
@@ -1662,7 +1663,13 @@ func (g Gateway) SubscribeToEvents(in *hydrapb.SubscribeToEventsRequest, eventSe
 
 		}
 
+		if verifhook.Enabled {
+			verifhook.Point("events.send.pre", eventServer)
+		}
 		// send the message to the client
+		if verifhook.Enabled {
+			verifhook.Point("events.send.enter", eventServer)
+		}
 		if sendErr := eventServer.SendMsg(&hydrapb.SubscribeToEventsResponse{
 			SwampName:       eventSwampName,
 			Treasure:        convertedTreasure,
@@ -1675,11 +1682,17 @@ func (g Gateway) SubscribeToEvents(in *hydrapb.SubscribeToEventsRequest, eventSe
 				"error", sendErr.Error(),
 				"swamp_name", eventSwampName)
 		}
+		if verifhook.Enabled {
+			verifhook.Point("events.send.leave", eventServer)
+		}
 
 	}
 
 	if err := hydraInterface.SubscribeToSwampEvents(subscriberUUID, swampName, eventCallbackFunction); err != nil {
 		return status.Error(codes.Internal, fmt.Sprintf("internal server error in hydra: %s", err.Error()))
+	}
+	if verifhook.Enabled {
+		verifhook.Point("events.subscribed", eventServer)
 	}
 
 	// Resolve the shutdown channel exactly once. Nil ShutdownCtx is allowed
